@@ -126,7 +126,9 @@ class CFG:
     def __init__(self, fn, catch_all: Iterable[str] = ('Exception',
                                                        'BaseException'),
                  cannot_raise: Optional[Set[str]] = None,
-                 raise_everywhere: bool = True):
+                 raise_everywhere: bool = True,
+                 raise_pred: Optional[Callable[[ast.AST], bool]] = None,
+                 assert_raises: bool = True):
         """fn: ast.FunctionDef / AsyncFunctionDef (or any object with .body).
 
         catch_all: exception class names (last dotted component) whose
@@ -138,6 +140,8 @@ class CFG:
         self.cannot_raise = CANNOT_RAISE if cannot_raise is None \
             else cannot_raise
         self.raise_everywhere = raise_everywhere
+        self.raise_pred = raise_pred
+        self.assert_raises = assert_raises
         self.entry = self._new('entry').id
         self.exit = self._new('exit').id
         self.raise_ = self._new('raise').id
@@ -239,12 +243,20 @@ class CFG:
                 return True
         return False
 
+    def _mr(self, e) -> bool:
+        if e is None:
+            return False
+        if self.raise_pred is not None:
+            return bool(self.raise_pred(e))
+        return expr_may_raise(e, self.cannot_raise)
+
     def _simple(self, st, preds, kind='stmt', may_raise_expr=None):
         n = self._new(kind, st)
         self._connect(preds, n.id)
         mr = st if may_raise_expr is None else may_raise_expr
-        if isinstance(st, (ast.Raise, ast.Assert)) or expr_may_raise(
-                mr, self.cannot_raise):
+        if isinstance(st, ast.Raise) or (
+                isinstance(st, ast.Assert) and self.assert_raises) \
+                or self._mr(mr):
             self._raise_from(n.id)
         return n
 
@@ -276,7 +288,7 @@ class CFG:
         if isinstance(st, ast.If):
             t = self._new('test', st.test)
             self._connect(preds, t.id)
-            if expr_may_raise(st.test, self.cannot_raise):
+            if self._mr(st.test):
                 self._raise_from(t.id)
             a = self._block(st.body, [(t.id, 'T')])
             b = self._block(st.orelse, [(t.id, 'F')]) if st.orelse \
@@ -285,7 +297,7 @@ class CFG:
         if isinstance(st, ast.While):
             t = self._new('test', st.test, tag='while')
             self._connect(preds, t.id)
-            if expr_may_raise(st.test, self.cannot_raise):
+            if self._mr(st.test):
                 self._raise_from(t.id)
             lp = _Loop(t.id)
             self._frames.append(lp)
@@ -300,7 +312,7 @@ class CFG:
         if isinstance(st, (ast.For, ast.AsyncFor)):
             h = self._new('for', st)
             self._connect(preds, h.id)
-            if expr_may_raise(st.iter, self.cannot_raise) or isinstance(
+            if self._mr(st.iter) or isinstance(
                     st, ast.AsyncFor):
                 self._raise_from(h.id)
             lp = _Loop(h.id)
@@ -316,7 +328,7 @@ class CFG:
             w = self._new('with', st)
             self._connect(preds, w.id)
             exprs = [i.context_expr for i in st.items]
-            if any(expr_may_raise(e, self.cannot_raise) for e in exprs) \
+            if any(self._mr(e) for e in exprs) \
                     or isinstance(st, ast.AsyncWith):
                 self._raise_from(w.id)
             return self._block(st.body, [(w.id, 'n')])
@@ -348,7 +360,7 @@ class CFG:
         if isinstance(st, ast.Match):
             m = self._new('match', st.subject)
             self._connect(preds, m.id)
-            if expr_may_raise(st.subject, self.cannot_raise):
+            if self._mr(st.subject):
                 self._raise_from(m.id)
             outs = []
             cur = [(m.id, 'n')]
